@@ -17,6 +17,7 @@ RULE = ('exhaustive grid of 64 primary opcodes x 1024 extended opcodes (bits 21-
         'all 32 BO values x BI classes x AA/LK for the branch opcodes; seeded random words. Per word: number of classes claiming it, decode, '
         'mnemonic against the architectural table, bin() fixpoint, str(), asm(str()) fixpoint. A case = the 32-bit word; non-trivial = exactly '
         'one class claims it and it decodes (the fixpoints were evaluated).')
+RULE += ' Round 9: compare families (cmp, cmpl, cmpi, cmpli, fcmpu, fcmpo, mcrf) x all 8 CR fields x distinct and equal source registers.'
 ASSUMPTIONS = ['the (primary, extended opcode) -> mnemonic table in vf/ppcref.py is the 32-bit PowerPC (603) assignment; every row llvm-mc 14 knows is '
                'checked against llvm-mc -mcpu=603 -show-encoding on each run (a contradicted row makes the check inconclusive)']
 
